@@ -146,6 +146,7 @@ func (d *badgerNodeDB) cleanMultipartLocked(removeNodes bool) error {
 
 	// Flush batch first. If anything fails, having corrupt multipart info in d.meta shouldn't hurt
 	// us next run.
+	api.VerifCrashPoint()
 	if err := batch.Flush(); err != nil {
 		return err
 	}
